@@ -42,6 +42,9 @@ pub fn measure(case: &AllocCase, n: u64) -> Result<AllocMeasure, String> {
     verif_hooks::set_hash_seed(case.hash_seed, false);
     verif_hooks::set_fuel(None);
     verif_hooks::set_fault_after(None);
+    // the scope registry (hook H3) is a growing vector: start every measurement with an empty one,
+    // so that its reallocations are the same whatever ran on this thread before
+    verif_hooks::release_envs();
     let mut env = Env::new(
         TopEnv {
             backrefs: Vec::new(),
@@ -108,6 +111,7 @@ pub fn measure(case: &AllocCase, n: u64) -> Result<AllocMeasure, String> {
     if let Ok(mut e) = env.try_borrow_mut() {
         e.vars.clear();
     }
+    verif_hooks::release_envs();
     result
 }
 
@@ -162,6 +166,8 @@ pub fn generate(seed: u64) -> AllocCase {
                 "x +.= {I}",
                 "x[{I}] max= 7",
                 "x |..= [{I}, 5]",
+                "swap x[{I}], x[0]",
+                "swap x[0], x[(0-1)]",
             ];
         }
         "two-lists" => {
@@ -183,6 +189,7 @@ pub fn generate(seed: u64) -> AllocCase {
                 "x[1][{I}] = 2",
                 "x[0][{I}] += 1",
                 "x[1] ++= [{I}]",
+                "swap x[0][{I}], x[0][0]",
             ];
         }
         "dict-of-lists" => {
@@ -210,6 +217,7 @@ pub fn generate(seed: u64) -> AllocCase {
                 "x -.= ({I} + {N})",
                 "x ||= {({I} + 2 * {N}): 1}",
                 "x insert= [{I}, 4]",
+                "remove x[{I}]",
             ];
         }
         "dict-default" => {
